@@ -484,6 +484,10 @@ func entryCount(b mp4.Box) int {
 		return 0
 	case *mp4.HvcCBox:
 		return len(t.NaluArrays)
+	case *mp4.LoudnessBaseBox:
+		return len(t.LoudnessBases)
+	case *mp4.AvcCBox:
+		return len(t.SPSnalus) + len(t.PPSnalus)
 	case *mp4.FtypBox:
 		return len(t.CompatibleBrands())
 	case *mp4.StypBox:
@@ -515,7 +519,7 @@ func countJob(data []byte, sr bool) string {
 
 var modelled = map[string]bool{"trun": true, "stts": true, "ctts": true, "stsc": true, "stsz": true, "stco": true, "co64": true,
 	"stss": true, "sdtp": true, "saiz": true, "saio": true, "senc": true, "sbgp": true, "subs": true, "elst": true, "tfra": true, "sidx": true, "sgpd": true,
-	"pssh": true, "ssix": true, "hint": true, "leva": true, "uuid": true, "ftyp": true, "styp": true, "hvcC": true}
+	"pssh": true, "ssix": true, "hint": true, "leva": true, "uuid": true, "ftyp": true, "styp": true, "hvcC": true, "tlou": true, "avcC": true}
 
 func isModelled(c ccase) bool {
 	return len(c.data) >= 16 && modelled[string(c.data[4:8])]
